@@ -58,8 +58,10 @@ CLAIMED = {
              "(size randomised per run); for every save in a history every "
              "disk step is crashed once (torn variants for flushes) and the "
              "restarted FileSet must see byte-for-byte the old or the new "
-             "document and load it without warning. Crash points are "
-             "enumerated exhaustively per history; histories are sampled.",
+             "document and load it without warning; the same steps are also "
+             "failed with an OSError instead of a crash, and one corruption "
+             "kind truncates the document at every byte offset. Crash points "
+             "are enumerated exhaustively per history; histories are sampled.",
         note="Crash = process death (completed syscalls persist, rename atomic, "
              "un-flushed user-space buffer lost); power-failure reordering is "
              "not modelled. A missing cache file needs no warning (documented "
@@ -78,7 +80,9 @@ CLAIMED = {
              "position, archives are truncated/bit-flipped. After every "
              "execution the temp directories must be empty, the decompressed "
              "copy gone, and a body exception must neither create nor change "
-             "the target. Fault placement is exhaustive per history; histories "
+             "the target; a failed block does not end the history (later blocks "
+             "must still work) and the thorough tier adds random double "
+             "faults. Fault placement is exhaustive per history; histories "
              "are sampled.",
         note="Faults are injected only at calls typhon.files.utils issues and "
              "on file objects it hands to the compression libraries; target "
